@@ -823,6 +823,16 @@ func runHist13(h *Hist13, x *evalCtx) hist13Result {
 							fmt.Sprintf("op %d (engine=%+v, env=%s): the object literal {a: P1, b: P2} does not hold the values of its components\n P1 = %s\n P2 = %s\n P1 alone: %s\n P2 alone: %s\n composed: class=%s %s",
 								i, spec, op.Prog.Env, op.Prog.Src, op.Prog2.Src, clip(a.Value), clip(b.Value), c.Class, clip(c.Value))}
 					}
+					// the same two fields written in the other order: field order is not part of an
+					// object type, but each value belongs to the NAME it was written with
+					sw := one("{b: (" + op.Prog2.Src + "), a: (" + op.Prog.Src + ")}")
+					ma := one("{b: (" + op.Prog2.Src + "), a: (" + op.Prog.Src + ")}.a")
+					w1, w2 := "{b:"+b.Value+",a:"+a.Value+"}", want
+					if composeViol == nil && (sw.Class != "ok" || sw.Value != w1 && sw.Value != w2 || ma.Class != "ok" || ma.Value != a.Value) {
+						composeViol = &Violation{"law", "c13:compose-law-swapped:" + sw.Class,
+							fmt.Sprintf("op %d (engine=%+v, env=%s): the object literal {b: P2, a: P1} does not hold the values of its components under their names\n P1 = %s\n P2 = %s\n P1 alone: %s\n P2 alone: %s\n {b: P2, a: P1}: class=%s %s\n {b: P2, a: P1}.a: class=%s %s",
+								i, spec, op.Prog.Env, op.Prog.Src, op.Prog2.Src, clip(a.Value), clip(b.Value), sw.Class, clip(sw.Value), ma.Class, clip(ma.Value))}
+					}
 				}
 			case "interfere":
 				r := newRng(uint64(i), uint64(op.N), h.Sim.Seed)
